@@ -94,6 +94,27 @@ def explore(run, tier):
                 size += 4 + len(iu.ref_encode(m, pkg, codec, False))
             for b in (0, 1):
                 cases.append({'codec': codec, 'b': b, 'msgs': [iu.dict_wire(m) for m in msgs]})
+    # VBS stream lengths (terminator included) exactly on / next to a multiple of 1012: the last block has no fill
+    for codec in codecs:
+        for k in (1, 2, 3, 4):
+            for delta in (-2, -1, 0, 1, 2):
+                target = k * 1012 + delta          # = sum(4 + len(rec)) + 4
+                base = 4 + len(iu.ref_encode({'MTI': '1240', 'DE2': '5' * 16, 'DE72': 'x'}, pkg, codec, False)) - 1
+                body = target - 4
+                count = max(1, -(-body // (base + 900)))
+                ns = []
+                left = body
+                for i in range(count):
+                    share = left // (count - i)
+                    ns.append(share - base)
+                    left -= share
+                if any(n < 1 or n > 999 for n in ns):
+                    continue
+                msgs = [{'MTI': '1240', 'DE2': '5' * 16, 'DE72': iu.text(rng, codec, n)} for n in ns]
+                if sum(4 + len(iu.ref_encode(m, pkg, codec, False)) for m in msgs) + 4 != target:
+                    continue
+                for b in (0, 1):
+                    cases.append({'codec': codec, 'b': b, 'msgs': [iu.dict_wire(m) for m in msgs], 'aligned': delta})
     run.exhaustive.append('each block count 1..10, 12, 20 for 6 first messages x 6 codecs x 2 formats')
     # invalid classes at their boundaries
     bm = lambda bits: sum(1 << (128 - b) for b in [1] + bits).to_bytes(16, 'big')   # noqa: E731
